@@ -176,6 +176,20 @@ Definition lift_arms : list arm := [
 Definition response_reads : list string := ["messages"; "events"; "attributes"; "data"].
 Definition response_calls : list string := ["customize_msg"].
 
+(* ---------- cosmwasm-std as pinned by Cargo.lock: the real enums / structs (C17) ---------- *)
+Definition cwstd_ok : bool := true.
+Definition cwstd_why : string := "".
+Definition cwstd_source : string := "cosmwasm-std-2.2.2".
+(* features cosmwasm-std is compiled with by the harness (closure over its own [features], `default` included) *)
+Definition cwstd_features : list string := ["cosmwasm_1_1"; "cosmwasm_1_2"; "cosmwasm_1_3"; "cosmwasm_1_4"; "cosmwasm_2_0"; "cosmwasm_2_1"; "cosmwasm_2_2"; "default"; "iterator"; "staking"; "stargate"; "std"].
+(* (variant, cfg gates, fields: "0","1",.. for tuple variants) in declaration order *)
+Definition cosmos_msg_variants : list (string * list cfg * list string) := [("Bank", [], ["0"]); ("Custom", [], ["0"]); ("Staking", [CfgFeature "staking"], ["0"]); ("Distribution", [CfgFeature "staking"], ["0"]); ("Stargate", [CfgFeature "stargate"], ["type_url"; "value"]); ("Any", [CfgFeature "cosmwasm_2_0"], ["0"]); ("Ibc", [CfgFeature "stargate"], ["0"]); ("Wasm", [], ["0"]); ("Gov", [CfgFeature "stargate"], ["0"])].
+Definition query_request_variants : list (string * list cfg * list string) := [("Bank", [], ["0"]); ("Custom", [], ["0"]); ("Staking", [CfgFeature "staking"], ["0"]); ("Distribution", [CfgFeature "cosmwasm_1_3"], ["0"]); ("Stargate", [CfgFeature "stargate"], ["path"; "data"]); ("Ibc", [CfgFeature "stargate"], ["0"]); ("Wasm", [], ["0"]); ("Grpc", [CfgFeature "cosmwasm_2_0"], ["0"])].
+Definition submsg_struct_fields : list string := ["id"; "payload"; "msg"; "gas_limit"; "reply_on"].
+Definition response_struct_fields : list string := ["messages"; "attributes"; "events"; "data"].
+(* types of the non-self parameters of Router::execute / query / sudo, as written *)
+Definition router_param_types : list (string * list string) := [("execute", ["&dyn Api"; "&mut dyn Storage"; "&BlockInfo"; "Addr"; "CosmosMsg<Self::ExecC>"]); ("query", ["&dyn Api"; "&dyn Storage"; "&BlockInfo"; "QueryRequest<Self::QueryC>"]); ("sudo", ["&dyn Api"; "&mut dyn Storage"; "&BlockInfo"; "SudoMsg"])].
+
 (* ---------- constants ---------- *)
 Definition DEFAULT_PREFIX : bytes := [99%N; 111%N; 115%N; 109%N; 119%N; 97%N; 115%N; 109%N]. (* addresses.rs str: cosmwasm *)
 Definition BALANCES : bytes := [98%N; 97%N; 108%N; 97%N; 110%N; 99%N; 101%N; 115%N]. (* bank.rs storage-key: balances *)
@@ -200,6 +214,49 @@ Definition byte_constants : list (string * string * bytes) := [("addresses.rs", 
 Definition event_type_literals : list (string * bytes) := [("wasm.rs", [101%N; 120%N; 101%N; 99%N; 117%N; 116%N; 101%N]); ("wasm.rs", [105%N; 110%N; 115%N; 116%N; 97%N; 110%N; 116%N; 105%N; 97%N; 116%N; 101%N]); ("wasm.rs", [109%N; 105%N; 103%N; 114%N; 97%N; 116%N; 101%N]); ("wasm.rs", [114%N; 101%N; 112%N; 108%N; 121%N]); ("wasm.rs", [115%N; 117%N; 100%N; 111%N]); ("wasm.rs", [119%N; 97%N; 115%N; 109%N])].
 (* first string-literal argument of .add_attribute(..) / attr(..) *)
 Definition attribute_key_literals : list (string * bytes) := [("wasm.rs", [99%N; 111%N; 100%N; 101%N; 95%N; 105%N; 100%N]); ("wasm.rs", [109%N; 111%N; 100%N; 101%N])].
+
+(* ---------- storage layout (wasm.rs contract_namespace; every place a prefixed view is opened) ---------- *)
+Definition contract_namespace_ok : bool := true.
+Definition contract_namespace_why : string := "".
+Definition contract_namespace_params : list string := ["contract"].
+Definition contract_namespace_literal : bytes := [99%N; 111%N; 110%N; 116%N; 114%N; 97%N; 99%N; 116%N; 95%N; 100%N; 97%N; 116%N; 97%N; 47%N]. (* contract_data/ *)
+Definition contract_namespace_appends : list string := ["contract.as_bytes()"].
+(* (file, enclosing fn, constructor / accessor, namespace or address argument) in source order *)
+Definition storage_sites : list (string * string * string * string) := [
+  ("app.rs", "contract_storage", "contract_storage", "contract_addr");
+  ("app.rs", "contract_storage_mut", "contract_storage_mut", "contract_addr");
+  ("app.rs", "prefixed_storage", "prefixed_read", "namespace");
+  ("app.rs", "prefixed_storage_mut", "prefixed", "namespace");
+  ("app.rs", "prefixed_multilevel_storage", "prefixed_multilevel_read", "namespaces");
+  ("app.rs", "prefixed_multilevel_storage_mut", "prefixed_multilevel", "namespaces");
+  ("bank.rs", "init_balance", "prefixed", "NAMESPACE_BANK");
+  ("bank.rs", "execute", "prefixed", "NAMESPACE_BANK");
+  ("bank.rs", "query", "prefixed_read", "NAMESPACE_BANK");
+  ("bank.rs", "sudo", "prefixed", "NAMESPACE_BANK");
+  ("staking.rs", "setup", "prefixed", "NAMESPACE_STAKING");
+  ("staking.rs", "add_validator", "prefixed", "NAMESPACE_STAKING");
+  ("staking.rs", "get_rewards", "prefixed_read", "NAMESPACE_STAKING");
+  ("staking.rs", "process_queue", "prefixed_read", "NAMESPACE_STAKING");
+  ("staking.rs", "process_queue", "prefixed", "NAMESPACE_STAKING");
+  ("staking.rs", "process_queue", "prefixed", "NAMESPACE_STAKING");
+  ("staking.rs", "execute", "prefixed", "NAMESPACE_STAKING");
+  ("staking.rs", "query", "prefixed_read", "NAMESPACE_STAKING");
+  ("staking.rs", "sudo", "prefixed", "NAMESPACE_STAKING");
+  ("staking.rs", "remove_rewards", "prefixed", "NAMESPACE_STAKING");
+  ("staking.rs", "get_withdraw_address", "prefixed_read", "NAMESPACE_DISTRIBUTION");
+  ("staking.rs", "set_withdraw_address", "prefixed", "NAMESPACE_DISTRIBUTION");
+  ("staking.rs", "execute", "prefixed_read", "NAMESPACE_STAKING");
+  ("wasm.rs", "contract_storage", "contract_namespace", "address");
+  ("wasm.rs", "contract_storage", "ReadonlyPrefixedStorage::multilevel", "&[NAMESPACE_WASM,&namespace]");
+  ("wasm.rs", "contract_storage_mut", "contract_namespace", "address");
+  ("wasm.rs", "contract_storage_mut", "PrefixedStorage::multilevel", "&[NAMESPACE_WASM,&namespace]");
+  ("wasm.rs", "contract_data", "prefixed_read", "NAMESPACE_WASM");
+  ("wasm.rs", "dump_wasm_raw", "contract_storage", "address");
+  ("wasm.rs", "query_raw", "contract_storage", "&address");
+  ("wasm.rs", "with_storage_readonly", "contract_storage", "&address");
+  ("wasm.rs", "with_storage", "contract_storage_mut", "&address");
+  ("wasm.rs", "save_contract", "prefixed", "NAMESPACE_WASM");
+  ("wasm.rs", "instance_count", "prefixed_read", "NAMESPACE_WASM")].
 
 (* ---------- advisory: possible sources of nondeterminism in non-test code (file, what, line) ---------- *)
 Definition nondet_sources : list (string * string * N) := [].
